@@ -452,8 +452,17 @@ Definition run_bases (args : list N) : list N :=
   | _ => [1; 0]
   end.
 
+(* 86: the type-id of an alias-declaration *)
+Definition run_alias (args : list N) : list N :=
+  let toks := dec_tks args in
+  match alias_type (4 * length toks + 8) toks with
+  | DOk (t, rest) => 0 :: 0 :: nlen rest :: enc_ty t
+  | DErr e => [1; e]
+  end.
+
 Definition run_case (cmd : N) (args : list N) : list N :=
   match cmd, args with
+  | 86, _ => run_alias args
   | 85, _ => run_bases args
   | 84, _ => run_enum_list args
   | 83, _ => run_fn_decl args
